@@ -430,7 +430,7 @@ def getitem_v(it, o, idx):
     if isinstance(o, (SStr, SBytes, SSeq)):
         if not isinstance(idx, (SInt, SBool, SEnum)):
             it.raise_(TypeError, "indices must be integers")
-        n = z3.Length(o.t)
+        n = slen(o.t) if not isinstance(o, SSeq) else z3.Length(o.t)
         i = _zi(idx)
         ic = simp(i)
         if z3.is_int_value(ic):
@@ -445,9 +445,9 @@ def getitem_v(it, o, idx):
                 it.raise_(IndexError, "index out of range")
             i = z3.If(i < 0, n + i, i)
         if isinstance(o, SBytes):
-            return SInt(simp(z3.StrToCode(z3.SubString(o.t, i, 1))))
+            return SInt(simp(scode(o.t, simp(i))))
         if isinstance(o, SStr):
-            return SStr(simp(z3.SubString(o.t, i, 1)))
+            return SStr(simp(sat(o.t, simp(i))))
         return seq_elem(it, o, i)
     if isinstance(o, (STuple, SList)):
         if not isinstance(idx, (SInt, SBool, SEnum)):
@@ -1159,7 +1159,9 @@ def lookup_function(o):
 @function(len)
 def f_len(it, x):
     x = it.resolve(x)
-    if isinstance(x, (SStr, SBytes, SSeq)):
+    if isinstance(x, (SStr, SBytes)):
+        return SInt(slen(x.t))
+    if isinstance(x, SSeq):
         return SInt(z3.Length(x.t))
     if isinstance(x, (STuple, SList, SDict, SSet)):
         return SInt(len(x.items))
@@ -1652,7 +1654,7 @@ def struct_unpack(it, fmt, data, exact, offset=None):
         raise Unsupported("struct.unpack on non-bytes")
     fields = struct_fields(fmt)
     size = struct_size(fields)
-    n = z3.Length(data.t)
+    n = slen(data.t)
     off = z3.IntVal(0) if offset is None else offset.t
     ok = (n == size) if exact else z3.And(off >= 0, n - off >= size)
     if not it.branch(SBool(ok)):
@@ -1662,13 +1664,13 @@ def struct_unpack(it, fmt, data, exact, offset=None):
     for f in fields:
         if isinstance(f, tuple):
             if f[0] == "s":
-                out.append(SBytes(simp(z3.SubString(data.t, pos, f[1]))))
+                out.append(SBytes(simp(ssub(data.t, simp(pos), z3.IntVal(f[1])))))
             pos = pos + f[1]
             continue
         w = STRUCT_SIZES[f]
         v = z3.IntVal(0)
         for k in range(w):
-            v = v * 256 + z3.StrToCode(z3.SubString(data.t, pos + k, 1))
+            v = v * 256 + scode(data.t, simp(pos + k))
         out.append(SInt(simp(v)))
         pos = pos + w
     return STuple(out)
@@ -1719,16 +1721,16 @@ def f_inet_ntop(it, family, data):
     data = it.resolve(data)
     fam = family.concrete()
     if fam == socket.AF_INET:
-        if not it.branch(SBool(z3.Length(data.t) == 4)):
+        if not it.branch(SBool(slen(data.t) == 4)):
             it.raise_(ValueError, "invalid length of packed IP address string")
         parts = []
         for k in range(4):
-            parts.append(z3.IntToStr(z3.StrToCode(z3.SubString(data.t, k, 1))))
+            parts.append(z3.IntToStr(scode(data.t, z3.IntVal(k))))
             if k < 3:
                 parts.append(z3.StringVal("."))
         return SStr(simp(z3.Concat(*parts)))
     if fam == socket.AF_INET6:
-        if not it.branch(SBool(z3.Length(data.t) == 16)):
+        if not it.branch(SBool(slen(data.t) == 16)):
             it.raise_(ValueError, "invalid length of packed IP address string")
         return SStr(uf("inet_ntop6", _S, _S)(data.t))
     raise Unsupported("inet_ntop family")
